@@ -1,7 +1,7 @@
 LIBS = ["libvpsc", "libcola", "libavoid", "libtopology", "libdialect"]
 HARNESS = "harness/c18.cpp"
 DRIVER_MODE = "c18"
-LEAN_MODULES = ["AdaptaVerif.Props.C18", "AdaptaVerif.Props.C18Tie", "AdaptaVerif.Props.C18Tie2"]
+LEAN_MODULES = ["AdaptaVerif.Props.C18", "AdaptaVerif.Props.C18Tie", "AdaptaVerif.Props.C18Tie2", "AdaptaVerif.Props.C18Ids"]
 LEVEL = "proof"
 
 # Which `flippedRetrieval` semantics of SepMatrix::getSepPair the C++ in /repo is expected to follow:
